@@ -312,7 +312,8 @@ func sanitize(s string) string {
 type snap struct {
 	rv, fs uint64
 	nr     int
-	rh     string
+	rh     string // contract content: Merkle root, sector roots, output values, signatures
+	rr     string // Manager.SectorRoots only, in order
 	bal    types.Currency
 }
 
@@ -327,9 +328,11 @@ func (w *hostWorld) snapshot() snap {
 	}
 	roots := w.node.Contracts.SectorRoots(w.fcid)
 	h := sha256.New()
+	hr := sha256.New()
 	h.Write(c.Revision.FileMerkleRoot[:])
 	for _, r := range roots {
 		h.Write(r[:])
+		hr.Write(r[:])
 	}
 	for _, o := range c.Revision.ValidProofOutputs {
 		h.Write([]byte(o.Value.ExactString() + "|"))
@@ -343,7 +346,7 @@ func (w *hostWorld) snapshot() snap {
 	if err != nil {
 		w.t.Fatal("snapshot balance:", err)
 	}
-	return snap{rv: c.Revision.RevisionNumber, fs: c.Revision.Filesize, nr: len(roots), rh: hex.EncodeToString(h.Sum(nil)[:6]), bal: bal}
+	return snap{rv: c.Revision.RevisionNumber, fs: c.Revision.Filesize, nr: len(roots), rh: hex.EncodeToString(h.Sum(nil)[:6]), rr: hex.EncodeToString(hr.Sum(nil)[:6]), bal: bal}
 }
 
 func snapObs(a, b snap) string {
@@ -354,7 +357,7 @@ func snapObs(a, b snap) string {
 	} else {
 		refund = b.bal.Sub(a.bal).ExactString()
 	}
-	return fmt.Sprintf("rv0=%d rv1=%d fs0=%d fs1=%d nr0=%d nr1=%d rh0=%s rh1=%s bal0=%s charged=%s gained=%s", a.rv, b.rv, a.fs, b.fs, a.nr, b.nr, a.rh, b.rh, a.bal.ExactString(), charged, refund)
+	return fmt.Sprintf("rv0=%d rv1=%d fs0=%d fs1=%d nr0=%d nr1=%d rr0=%s rr1=%s rh0=%s rh1=%s bal0=%s charged=%s gained=%s", a.rv, b.rv, a.fs, b.fs, a.nr, b.nr, a.rr, b.rr, a.rh, b.rh, a.bal.ExactString(), charged, refund)
 }
 
 // ---------------------------------------------------------------- RHP3 programs
@@ -615,6 +618,9 @@ func waitHandlerDone(s *crhp3.Stream) error {
 //   c_badsig       correct values, corrupted signature
 //   c_samerev      revision number not increased
 //   c_more         renter output increased
+//   c_unknown      a contract id the host does not know
+// A contract payment larger than the renter's funds zeroes the renter outputs and still adds
+// `amount` to the host outputs (the sums no longer match).
 func (w *hostWorld) writePayment(s *crhp3.Stream, mode string, amount types.Currency) error {
 	if strings.HasPrefix(mode, "acct") {
 		expiry := w.pt.HostBlockHeight + 6
@@ -649,10 +655,18 @@ func (w *hostWorld) writePayment(s *crhp3.Stream, mode string, amount types.Curr
 	}
 	revnum := cur.RevisionNumber + 1
 	if valid[0].Cmp(amount) < 0 || missed[0].Cmp(amount) < 0 {
-		return errors.New("contract cannot pay")
+		addSat := func(a, b types.Currency) types.Currency {
+			if c, ovf := a.AddWithOverflow(b); !ovf {
+				return c
+			}
+			return maxCurrency
+		}
+		valid[0], valid[1] = types.ZeroCurrency, addSat(valid[1], amount)
+		missed[0], missed[1] = types.ZeroCurrency, addSat(missed[1], amount)
+	} else {
+		valid[0], valid[1] = valid[0].Sub(amount), valid[1].Add(amount)
+		missed[0], missed[1] = missed[0].Sub(amount), missed[1].Add(amount)
 	}
-	valid[0], valid[1] = valid[0].Sub(amount), valid[1].Add(amount)
-	missed[0], missed[1] = missed[0].Sub(amount), missed[1].Add(amount)
 	switch mode {
 	case "c_sumovf":
 		valid[1] = maxCurrency
@@ -669,6 +683,9 @@ func (w *hostWorld) writePayment(s *crhp3.Stream, mode string, amount types.Curr
 		valid[0] = valid[0].Add(amount).Add(amount)
 	}
 	req := crhp3.PayByContractRequest{ContractID: w.fcid, RevisionNumber: revnum, ValidProofValues: valid, MissedProofValues: missed, RefundAccount: w.account}
+	if mode == "c_unknown" {
+		req.ContractID[5] ^= 0x33
+	}
 	// sign what the host will build: rhp.Revise(current, number, values)
 	signed := cur
 	signed.RevisionNumber = revnum
@@ -1001,6 +1018,107 @@ func (w *hostWorld) waitUnlocked() {
 	if _, err := w.node.Contracts.Lock(ctx, w.fcid); err == nil {
 		w.node.Contracts.Unlock(w.fcid)
 	}
+}
+
+// ---------------------------------------------------------------- the other RHP3 RPCs
+
+// doR3 drives handleRPCFundAccount / handleRPCAccountBalance / handleRPCLatestRevision /
+// handleRPCPriceTable.  Arguments: rpc=fund|bal|rev|pt, uid=ok|bad (price table id), pay=<mode of
+// writePayment> or none (rev only), amount=<hastings> (fund: what the contract revision transfers;
+// others: the budget withdrawn), acct=self|zero (fund: account to credit), fcid=1|0 (rev: known contract).
+func (w *hostWorld) doR3(p vhlib.ParsedLine) string {
+	if bad := w.prepare(p.Int("n")); bad != "" {
+		return bad
+	}
+	amount, ok := parseCurrency(p.Args["amount"])
+	if !ok {
+		return "res=badcase why=amount"
+	}
+	rpc, pay := p.Args["rpc"], orDefault(p.Args["pay"], "acct")
+	uid := w.pt.UID
+	if p.Args["uid"] == "bad" {
+		uid[3] ^= 0x5a
+	}
+	var cost types.Currency
+	switch rpc {
+	case "fund":
+		cost = w.pt.FundAccountCost
+	case "bal":
+		cost = w.pt.AccountBalanceCost
+	case "rev":
+		cost = w.pt.LatestRevisionCost
+	case "pt":
+		cost = w.pt.UpdatePriceTableCost
+	default:
+		return "res=badcase why=rpc"
+	}
+	before := w.snapshot()
+	s := w.t3.DialStream()
+	defer s.Close()
+	s.SetDeadline(time.Now().Add(caseIOWait))
+	res := "reject"
+	var ferr error
+	step := func(err error) bool {
+		if err != nil && ferr == nil {
+			ferr = err
+		}
+		return ferr == nil
+	}
+	switch rpc {
+	case "fund":
+		acct := w.account
+		if p.Args["acct"] == "zero" {
+			acct = crhp3.ZeroAccount
+		}
+		var resp crhp3.RPCFundAccountResponse
+		if step(s.WriteRequest(crhp3.RPCFundAccountID, &uid)) && step(s.WriteResponse(&crhp3.RPCFundAccountRequest{Account: acct})) &&
+			step(w.writePayment(s, pay, amount)) && step(s.ReadResponse(&resp, 4096)) {
+			res = "accept"
+		}
+	case "bal":
+		var resp crhp3.RPCAccountBalanceResponse
+		if step(s.WriteRequest(crhp3.RPCAccountBalanceID, &uid)) && step(w.writePayment(s, pay, amount)) &&
+			step(s.WriteResponse(&crhp3.RPCAccountBalanceRequest{Account: w.account})) && step(s.ReadResponse(&resp, 4096)) {
+			res = "accept"
+		}
+	case "rev":
+		id := w.fcid
+		if p.U64("fcid") != 1 {
+			id[7] ^= 0x21
+		}
+		var resp crhp3.RPCLatestRevisionResponse
+		if step(s.WriteRequest(crhp3.RPCLatestRevisionID, &crhp3.RPCLatestRevisionRequest{ContractID: id})) && step(s.ReadResponse(&resp, 1<<16)) {
+			res = "accept"
+			if pay != "none" {
+				// the payment is optional; whatever happens to it, the renter has its answer
+				if err := s.WriteResponse(&uid); err == nil {
+					if perr := w.writePayment(s, pay, amount); perr != nil {
+						settleAfterDrop(perr)
+					}
+				}
+			}
+		}
+	case "pt":
+		var ptResp crhp3.RPCUpdatePriceTableResponse
+		var done crhp3.RPCPriceTableResponse
+		if step(s.WriteRequest(crhp3.RPCUpdatePriceTableID, nil)) && step(s.ReadResponse(&ptResp, 1<<16)) &&
+			step(w.writePayment(s, pay, amount)) && step(s.ReadResponse(&done, 4096)) {
+			res = "accept"
+		}
+	}
+	if ferr != nil {
+		if isTimeout(ferr) {
+			return "res=hang " + snapObs(before, w.snapshot())
+		}
+		settleAfterDrop(ferr)
+	}
+	if herr := waitHandlerDone(s); herr != nil {
+		return "res=hang " + snapObs(before, w.snapshot())
+	}
+	if ferr != nil && isClosedErr(ferr) {
+		w.redialIfDead()
+	}
+	return fmt.Sprintf("res=%s cost=%s %s", res, cost.ExactString(), snapObs(before, w.snapshot()))
 }
 
 // ---------------------------------------------------------------- RHP2
